@@ -126,7 +126,7 @@ class FP:
 # --------------------------------------------------------------------------------------------
 # build through the Python classes
 # --------------------------------------------------------------------------------------------
-def build_python(spec: ModelSpec, share_ops=True):
+def build_python(spec: ModelSpec, share_ops=True, share_circuits=False):
     """Returns a CircuitTemplate built with the PyRates Python API."""
     from pyrates import CircuitTemplate, NodeTemplate, OperatorTemplate, EdgeTemplate
     optpl = {}
@@ -177,6 +177,7 @@ def build_python(spec: ModelSpec, share_ops=True):
                         attrs[f"{e.template}/{oname}/{inp}"] = m
         return (e.src, e.tgt, etpls[e.template] if e.template else None, attrs)
 
+    _shared_circuits = {}
     depth = spec.depth()
     if depth == 0:
         return CircuitTemplate(spec.name, nodes=nodes, edges=[edge_tuple(e) for e in spec.edges])
@@ -191,7 +192,16 @@ def build_python(spec: ModelSpec, share_ops=True):
         if all(r == [''] for r in heads.values()):
             nd = {h: nodes[(prefix + '/' + h) if prefix else h] for h in heads}
             inner = [e for e in spec.edges if _inside(e, prefix, leaf=True)]
-            return CircuitTemplate(lvl_name, nodes=nd, edges=[_strip(edge_tuple(e), prefix) for e in inner])
+            etups = [_strip(edge_tuple(e), prefix) for e in inner]
+            if share_circuits:
+                # structurally identical leaf circuits (same node templates, same relative edges) become ONE object
+                sig = (tuple((h, id(t)) for h, t in nd.items()),
+                       tuple((a, b, id(c), tuple(sorted((k, str(v)) for k, v in d.items()))) for a, b, c, d in etups))
+                if sig in _shared_circuits:
+                    return _shared_circuits[sig]
+                _shared_circuits[sig] = CircuitTemplate(lvl_name, nodes=nd, edges=etups)
+                return _shared_circuits[sig]
+            return CircuitTemplate(lvl_name, nodes=nd, edges=etups)
         circuits = {}
         for h, rest in heads.items():
             p = (prefix + '/' + h) if prefix else h
